@@ -10,6 +10,8 @@ import (
 	"strings"
 	"sync"
 	"sync/atomic"
+	"syscall"
+	"time"
 
 	"github.com/ErdemOzgen/blackdagger/internal/logger"
 )
@@ -17,6 +19,48 @@ import (
 var ErrServerRequestedShutdown = errors.New(
 	"socket frontend is requested to shutdown",
 )
+
+// ErrAddressInUse is returned by Serve when another process is serving the
+// socket address.
+var ErrAddressInUse = errors.New("socket address is in use by a live process")
+
+// withAddrLock runs fn while holding an exclusive file lock that belongs to
+// the socket address. Binding and releasing the address happen under this
+// lock, so that processes that start or end at the same time cannot remove
+// each other's socket. The lock is released by the kernel if the process dies.
+func withAddrLock(addr string, fn func() error) error {
+	f, err := os.OpenFile(addr+".lock", os.O_CREATE|os.O_RDWR, 0o600)
+	if err != nil {
+		return err
+	}
+	defer func() {
+		_ = f.Close()
+	}()
+	if err := syscall.Flock(int(f.Fd()), syscall.LOCK_EX); err != nil {
+		return err
+	}
+	defer func() {
+		_ = syscall.Flock(int(f.Fd()), syscall.LOCK_UN)
+	}()
+	return fn()
+}
+
+// listenExclusive binds the address unless a live process is listening on it.
+// A socket file that nobody listens on (left behind by a killed process) is
+// replaced.
+func listenExclusive(addr string) (ln net.Listener, err error) {
+	err = withAddrLock(addr, func() error {
+		if conn, derr := net.DialTimeout("unix", addr, time.Second); derr == nil {
+			_ = conn.Close()
+			return ErrAddressInUse
+		}
+		_ = os.Remove(addr)
+		var lerr error
+		ln, lerr = net.Listen("unix", addr)
+		return lerr
+	})
+	return ln, err
+}
 
 // Server is a unix socket frontend that passes http requests to HandlerFunc.
 type Server struct {
@@ -46,9 +90,8 @@ func NewServer(
 
 // Serve starts listening and serving requests.
 func (srv *Server) Serve(listen chan error) error {
-	_ = os.Remove(srv.addr)
 	var err error
-	srv.listener, err = net.Listen("unix", srv.addr)
+	srv.listener, err = listenExclusive(srv.addr)
 	if err != nil {
 		if listen != nil {
 			listen <- err
@@ -62,7 +105,6 @@ func (srv *Server) Serve(listen chan error) error {
 
 	defer func() {
 		_ = srv.Shutdown()
-		_ = os.Remove(srv.addr)
 	}()
 	for {
 		conn, err := srv.listener.Accept()
@@ -90,7 +132,10 @@ func (srv *Server) Shutdown() error {
 	if !srv.quit.Load() {
 		srv.quit.Store(true)
 		if srv.listener != nil {
-			err := srv.listener.Close()
+			// closing the listener removes the socket file: under the address
+			// lock, so that it cannot hit the socket of a process that binds
+			// the address at the same moment
+			err := withAddrLock(srv.addr, srv.listener.Close)
 			if err != nil && !errors.Is(err, os.ErrClosed) {
 				srv.logger.Error("close listener", "error", err)
 			}
